@@ -33,7 +33,7 @@ Ev == Trace[l]
 SetOf(q) == {q[i] : i \in 1 .. Len(q)}
 
 TerminalTags == {"C17.rm.handshake", "C17.rm.crash", "C17.cache.crash", "C17.cache.hang", "C17.addr.crash", "C17.sem.crash",
-                 "C17.sem.len.stress"}
+                 "C17.sem.len.stress", "C17.sess.crash", "C17.sess.hang"}
 
 SetViol(v) ==
     /\ viol' = IF viol # "" THEN viol ELSE v
